@@ -610,6 +610,23 @@ def _refers_to_nested_array_alias(sch: dict, schemas: dict) -> bool:
     return False
 
 
+def _refers_to_enum_array_alias(sch: dict, schemas: dict) -> bool:
+    """$ref (directly or as array items) to a named schema that is an array whose items resolve to an enum."""
+    def deref(n):
+        for _ in range(6):
+            if isinstance(n, dict) and "$ref" in n:
+                n = schemas.get(n["$ref"].rsplit("/", 1)[1], {})
+        return n if isinstance(n, dict) else {}
+
+    cands = [sch] + ([sch.get("items")] if isinstance(sch, dict) and sch.get("type") == "array" else [])
+    for c in cands:
+        if isinstance(c, dict) and "$ref" in c:
+            t = deref(c)
+            if t.get("type") == "array" and "enum" in deref(t.get("items", {})):
+                return True
+    return False
+
+
 def _gate_colliding_promotable(g: Gate, props: dict) -> dict:
     """Inline objects of bodies / responses: two keys deriving to one identifier where one needs a synthesised type (inline enum) are
     the trigger of C03-F03; with that finding open the later key is dropped (counted)."""
@@ -665,6 +682,13 @@ def _response(draw, g: Gate, names: list[str], code: str, success: bool, schemas
                 sch = {"type": "array", "items": {"type": "string"}}
             else:
                 g.used["resp_nested_array_alias"] += 1
+        if success and _refers_to_enum_array_alias(sch, schemas_ctx or {}):
+            # a response that refers to a NAMED alias "array of a named enum" is returned via cast() as raw strings: finding C05-F09
+            if "resp_enum_array_alias" in g.exclude:
+                g.excluded["resp_enum_array_alias"] += 1
+                sch = {"type": "array", "items": {"type": "string"}}
+            else:
+                g.used["resp_enum_array_alias"] += 1
         if success and _formatted_primitive(sch, schemas_ctx or {}):
             # a formatted primitive (uuid/date/...) as the whole response is cast, not converted: finding C05-F04
             if not g.flag(draw, "resp_formatted_primitive", 1, 1):
